@@ -299,3 +299,111 @@ class Twin:
                         ch[a_] = int.from_bytes(after[2 * a_:2 * a_ + 2], 'little')
             return {'regs': out, 'dmem': ch, 'unimpl': rc == 1}
         return native.in_child(body)
+
+
+_twin_cache = {}
+
+
+def spec_replayer(E, i, exp_names):
+    """replay for 'row vs model' obligations: run the row on the natively compiled current tree and compare the fields
+    named in exp_names with the model's expected values (inputs['exp.<field>'])"""
+    def rp(inputs):
+        tw = _twin_cache.get(E.tree)
+        if tw is None:
+            tw = _twin_cache[E.tree] = Twin(E)
+        regs = {k[2:]: v for k, v in inputs.items() if k.startswith('r.')}
+        mem = {}
+        k_ = 0
+        while 'rd%d.addr' % k_ in inputs:
+            mem.setdefault(inputs['rd%d.addr' % k_], inputs['rd%d.val' % k_])
+            k_ += 1
+        a = tw.run_row(i, inputs['o'], inputs['e'], regs, list(mem.items()))
+        if a[0] != 'ok':
+            return True, {'native': 'aborts: %r' % (a,)}
+        if a[1]['unimpl']:
+            return True, {'native': 'reports unimplemented'}
+        bad = {f: (a[1]['regs'].get(f), inputs['exp.' + f]) for f in exp_names if 'exp.' + f in inputs and a[1]['regs'].get(f) != inputs['exp.' + f]}
+        if 'exp.dmem_unchanged' in inputs and a[1]['dmem']:
+            bad['dmem'] = a[1]['dmem']
+        return bool(bad), {'fields (native, model)': bad}
+    return rp
+
+
+def read_vars(E, st, limit=24):
+    """named variables for the data-memory reads of a run (address and pre-state value), for replay files"""
+    dm0 = E.pre_dmem()
+    out = {}
+    k = 0
+    for ev in (st.log if st is not None else []):
+        if ev[0] == 'R' and k < limit:
+            out['rd%d.addr' % k] = ev[2]
+            out['rd%d.val' % k] = z3.Select(dm0, ev[2])
+            k += 1
+    return out
+
+
+def validate_row(C, i, seed, pid, level):
+    """translator validation: one random concrete (opcode, state) per row through the executor and the native twin"""
+    import random
+    ck = core.Check(pid, level, 'quick', seed)
+    rnd = random.Random(seed * 1000 + i)
+    row = C.rows[i]
+    ex, st0, ctx = C.base()
+    R = C.R()
+    for attempt in range(40):
+        oc = (rnd.randrange(65536) & ~row['mask'] & 0xFFFF) | row['expected']
+        if all((oc & m) != u for m, u in row['rejectors']):
+            break
+    ec = rnd.randrange(65536)
+    conc = {}
+    s = z3.Solver()
+    s.add(*C.inv())
+    # random but Inv-respecting state: ask the solver for a model near random values
+    for f, t in R.items():
+        s.push()
+        s.add(t == rnd.randrange(1 << min(t.size(), 16)))
+        if s.check() != z3.sat:
+            s.pop()
+    assert s.check() == z3.sat
+    m = s.model()
+    conc = {f: m.eval(t, model_completion=True).as_long() for f, t in R.items()}
+    A = [t == conc[f] for f, t in R.items()]
+    memv = rnd.randrange(65536)
+    dm0 = C.pre_dmem()
+    try:
+        r = C.run_row(i, oc, ec, A)
+    except (Abort, UnwindBound) as x:
+        ck.notes.append('validation row %d skipped: %r' % (i, x))
+        return ck.export()
+    if r['st'] is None:
+        return ck.export()
+    sub = [(t, z3.BitVecVal(conc[f], t.size())) for f, t in R.items()]
+    K = z3.K(z3.BitVecSort(16), z3.BitVecVal(memv, 16))
+    sub.append((dm0, K))
+    post = C.post_regs(r['st'])
+    got = {}
+    for f, t in post.items():
+        v = z3.simplify(z3.substitute(t, *sub))
+        got[f] = v.as_long() if z3.is_bv_value(v) else None
+    tw = _twin_cache.get(C.tree)
+    if tw is None:
+        tw = _twin_cache[C.tree] = Twin(C)
+    nat = tw.run_row(i, oc, ec, conc, [])
+    # native memory is zero-filled: use memv = 0 semantics by re-substituting
+    K0 = z3.K(z3.BitVecSort(16), z3.BitVecVal(0, 16))
+    sub[-1] = (dm0, K0)
+    got = {}
+    for f, t in post.items():
+        v = z3.simplify(z3.substitute(t, *sub))
+        got[f] = v.as_long() if z3.is_bv_value(v) else None
+    if nat[0] != 'ok':
+        ck.notes.append('validation row %d: native %r' % (i, nat[0]))
+        return ck.export()
+    if nat[1]['unimpl']:
+        return ck.export()
+    bad = [f for f in got if got[f] is not None and got[f] != nat[1]['regs'].get(f)]
+    if bad:
+        ck.engine_errors.append('translator validation mismatch row %d %s opcode %#06x: fields %s exec=%r native=%r' % (i, row['name'], oc, bad[:5], [got[f] for f in bad[:5]], [nat[1]['regs'].get(f) for f in bad[:5]]))
+    else:
+        ck.validated += 1
+    return ck.export()
